@@ -4,7 +4,7 @@
    prodl = product of a list; `s` is the stream of generator outputs the code consumes (any stream). *)
 From Coq Require Import ZArith List Znumtheory.
 From C09 Require Import Model Model2 ProofsAlg ProofsDiv ProofsSplit ProofsIrr ProofsCZ ProofsReq ProofsSweepIrr ProofsSweepSqr ProofsSweepOrd
-  ProofsPow ProofsOrd ProofsRep ProofsSqr ProofsRep2.
+  ProofsPow ProofsOrd ProofsRep ProofsSqr ProofsRep2 Model3 ProofsM3 ProofsFactors ProofsLagrange ProofsIrrSound.
 Import ListNotations.
 Local Open Scope Z_scope.
 
@@ -52,15 +52,16 @@ Theorem C09_ddf_preserves_product : forall p, prime p -> forall f MOD L s L' s',
 Proof. exact ddf_spec. Qed.
 Print Assumptions C09_ddf_preserves_product.
 
-(* CZfactor's multiplicity bookkeeping: for every stream, the returned factors Lf with the returned multiplicities Le multiply,
+(* HISTORY (Model.czfactor = CZfactor over the former Yun loop; the current body: C09_czfactor_multiplies_back_and_invents_no_factor below).
+   CZfactor's multiplicity bookkeeping: for every stream, the returned factors Lf with the returned multiplicities Le multiply,
    up to a constant U, to prod_j g_j^j where (nb, g) is what sqrfree delivered; every multiplicity is >= 1, |Lf| = |Le|.
    wprod Lf Le = prod_i Lf_i^Le_i;  gprod g 0 = g_1^1 g_2^2 ...  *)
-Theorem C09_czfactor_multiplicities : forall p, prime p -> forall P MOD s Lf Le s', czfactor p P MOD s = Some (Lf, Le, s') ->
+Theorem C09_czfactor_multiplicities_former_yun_loop_history : forall p, prime p -> forall P MOD s Lf Le s', czfactor p P MOD s = Some (Lf, Le, s') ->
   let nb := fst (sqrfree p (deg P + 1) P) in let g := snd (sqrfree p (deg P + 1) P) in
   exists U, length Lf = length Le /\ Forall (canon p) Lf /\ Forall (fun e => 1 <= e) Le /\ deg U <= 0 /\
     eqp p (pmulZ (wprod Lf Le) U) (gprod (firstn (Z.to_nat nb) g) 0).
 Proof. exact czfactor_spec. Qed.
-Print Assumptions C09_czfactor_multiplicities.
+Print Assumptions C09_czfactor_multiplicities_former_yun_loop_history.
 
 (* requests, for every stream: what is returned has exactly n+1 coefficients, leading coefficient 1, and passed the tests *)
 Theorem C09_creux_random_irreducible_exit : forall p n MOD s R s', (1 <= n)%nat -> creux_random_irreducible p n MOD s = Some (R, s') ->
@@ -86,6 +87,28 @@ Theorem C09_random_prim_root_exit : forall p n MOD s P R s', (1 <= n)%nat -> ran
   is_irreducible p (norm P) MOD = true /\ length P = S n /\ nth n P 0 = 1 /\ is_prim_root p (norm R) (norm P) MOD = true.
 Proof. exact random_prim_root_spec. Qed.
 Print Assumptions C09_random_prim_root_exit.
+
+(* the hypotheses of the exit theorems are satisfiable: concrete streams over GF(3) on which each request returns *)
+Example C09_creux_exit_example : creux_random_irreducible 3 2 3 [1; 2; 0; 1] = Some ([1; 0; 1], [1; 2; 0; 1]).
+Proof. vm_compute. reflexivity. Qed.
+Example C09_ixe_exit_example : ixe_irreducible 3 2 3 [1; 2; 0; 1; 2; 2; 1; 0] = Some ([2; 2; 1], [2; 1; 0]).
+Proof. vm_compute. reflexivity. Qed.
+Example C09_ixe2_exit_example : ixe_irreducible2 3 2 3 [1; 2; 0; 1; 2; 2; 1; 0] = Some ([2; 2; 1], [2; 1; 0]).
+Proof. vm_compute. reflexivity. Qed.
+Example C09_give_prim_root_exit_example : give_prim_root 3 [1; 0; 1] 3 [1; 2] = Some ([1; 1], [1; 2]).
+Proof. vm_compute. reflexivity. Qed.
+Example C09_give_random_prim_root_exit_example : give_random_prim_root 3 [1; 0; 1] 3 [1; 2; 0; 1] = Some ([0; 2; 1], [1]).
+Proof. vm_compute. reflexivity. Qed.
+Example C09_random_prim_root_exit_example : random_prim_root 3 2 3 [1; 2; 0; 1; 2; 2] = Some ([2; 2; 1], [0; 1], [2]).
+Proof. vm_compute. reflexivity. Qed.
+Example C09_random_irreducible_exit_example : random_irreducible 3 2 3 [1; 2; 0; 1; 2; 2] = Some ([2; 2; 1], [2]).
+Proof. vm_compute. reflexivity. Qed.
+Example C09_split1_example : split1 3 20 [2; 0; 1] 1 3 [1; 2; 0; 1] = Some ([2; 1], [0; 1]).
+Proof. vm_compute. reflexivity. Qed.
+Example C09_split_example : split 3 20 [2; 0; 1] 1 3 [] [1; 2; 0; 1] = Some ([[2; 1]; [1; 1]], [0; 1]).
+Proof. vm_compute. reflexivity. Qed.
+Example C09_ddf_example : ddf 3 [2; 2; 1; 2; 1] 3 [] [1; 2] = Some ([[2; 2]; [1; 0; 2; 2]], [1; 2]).
+Proof. vm_compute. reflexivity. Qed.
 
 (* the verified irreducibility checker (divisor search) is sound and complete against the definition *)
 Theorem C09_irreducible_b_sound : forall p, prime p -> forall P, canon p P -> irreducible_b p P = true -> irreducible_def p P.
@@ -116,15 +139,16 @@ Theorem C09_irreducibility_tests_decide_partial : Irr_tests_decide_bounded.
 Proof. exact irr_tests_decide_bounded. Qed.
 Print Assumptions C09_irreducibility_tests_decide_partial.
 
-(* bounded: square-free decomposition multiplies back up to a constant, parts square-free and pairwise coprime, for EVERY
+(* HISTORY (former Yun loop).  bounded: square-free decomposition multiplies back up to a constant, parts square-free and pairwise coprime, for EVERY
    polynomial of degree <= d over GF(p), (p,d) in sqrfree_bounds = [(3,2); (5,4); (7,3); (11,2)]  (characteristic > degree) *)
-Theorem C09_sqrfree_multiplies_back_partial : Sqrfree_bounded.
+Theorem C09_sqrfree_multiplies_back_partial_former_yun_loop_history : Sqrfree_bounded.
 Proof. exact sqrfree_bounded. Qed.
-Print Assumptions C09_sqrfree_multiplies_back_partial.
-(* the unbounded statement Sqrfree_all is false in small characteristic (known finding: no p-th-root branch) *)
-Theorem C09_sqrfree_all_refuted : exists p P, prime p /\ canon p P /\ P <> [] /\ sqrfree_ok p P = false.
+Print Assumptions C09_sqrfree_multiplies_back_partial_former_yun_loop_history.
+(* HISTORY: for the former Yun loop (Model.sqrfree, removed from the tree by ffdc6c6) the unbounded statement Sqrfree_all was false in small
+   characteristic (no p-th-root branch; finding fixed).  The body in the tree now is Model2.sqrfree_rep: C09_sqrfree_multiplies_back below. *)
+Theorem C09_sqrfree_all_refuted_former_yun_loop_history : exists p P, prime p /\ canon p P /\ P <> [] /\ sqrfree_ok p P = false.
 Proof. exact sqrfree_all_refuted. Qed.
-Print Assumptions C09_sqrfree_all_refuted.
+Print Assumptions C09_sqrfree_all_refuted_former_yun_loop_history.
 
 (* bounded: order and is_prim_root agree with the verified order checker for EVERY element of GF(p^n) = F_p[X]/(F),
    every irreducible F of degree n, (p,n) in order_bounds *)
@@ -224,41 +248,41 @@ Print Assumptions C09_diff_leibniz.
 Example C09_diff_example : prime 5 /\ pdiff 5 [1; 2; 3; 4] = [2; 1; 2] /\ dZ [1; 2; 3; 4] = [2; 6; 12].
 Proof. exact pdiff_example. Qed.
 
-(* square-free decomposition, EVERY canonical input, EVERY characteristic (also where the known defect bites), by the loop invariant
+(* HISTORY (former Yun loop, Model.sqrfree).  square-free decomposition, EVERY canonical input, EVERY characteristic, by the loop invariant
    W_k * (parts so far) = W_0: with A = P / lc P and C = gcd(A, A') / lc, the parts delivered multiply -- without multiplicities -- to
    A / C whenever sqrfree did not leave through its `++count > Nfact` exit; in every case they divide A and every part divides P *)
-Theorem C09_sqrfree_parts_multiply_to_radical_cofactor : Sqrfree_parts_stmt.
+Theorem C09_sqrfree_parts_multiply_to_radical_cofactor_former_yun_loop_history : Sqrfree_parts_stmt.
 Proof. exact sqrfree_parts_thm. Qed.
-Print Assumptions C09_sqrfree_parts_multiply_to_radical_cofactor.
-Theorem C09_sqrfree_exit_dichotomy : Sqrfree_cases_stmt.
+Print Assumptions C09_sqrfree_parts_multiply_to_radical_cofactor_former_yun_loop_history.
+Theorem C09_sqrfree_exit_dichotomy_former_yun_loop_history : Sqrfree_cases_stmt.
 Proof. exact sqrfree_cases_thm. Qed.
-Print Assumptions C09_sqrfree_exit_dichotomy.
-Theorem C09_sqrfree_parts_divide_input : Sqrfree_sound_stmt.
+Print Assumptions C09_sqrfree_exit_dichotomy_former_yun_loop_history.
+Theorem C09_sqrfree_parts_divide_input_former_yun_loop_history : Sqrfree_sound_stmt.
 Proof. exact sqrfree_sound_thm. Qed.
-Print Assumptions C09_sqrfree_parts_divide_input.
+Print Assumptions C09_sqrfree_parts_divide_input_former_yun_loop_history.
 Example C09_sqrfree_parts_hypotheses_satisfiable_char2 : prime 2 /\ canon 2 [0; 0; 1] /\ [0; 0; 1] <> [] /\ 3 <> 0 /\
   sqrfree 2 3 [0; 0; 1] = (1, [[1]]) /\ 1 = Z.of_nat (length [[1]]).
 Proof. pose proof sqrfree_parts_example_char2 as H. tauto. Qed.
 
-(* Yun's recurrence is EXACT whenever it should be -- every prime p, every size (replaces the sweep C09_sqrfree_multiplies_back_partial
+(* HISTORY (former Yun loop).  Yun's recurrence is EXACT whenever it should be -- every prime p, every size (replaces the sweep C09_sqrfree_multiplies_back_partial_former_yun_loop_history
    by a proof: Bezout, Gauss, Leibniz):  if A = P / lc P is a_1^1 a_2^2 ... a_m^m with the a_i canonical, square-free
    (deg gcd(a_i, a_i') <= 0), pairwise coprime, a_m not constant, and m < p (every multiplicity below the characteristic),
    then sqrfree returns exactly m parts and the i-th part is a_i up to a non-zero constant *)
-Theorem C09_sqrfree_yun_exact_below_characteristic : Sqrfree_yun_stmt.
+Theorem C09_sqrfree_yun_exact_below_characteristic_former_yun_loop_history : Sqrfree_yun_stmt.
 Proof. exact sqrfree_yun_thm. Qed.
-Print Assumptions C09_sqrfree_yun_exact_below_characteristic.
+Print Assumptions C09_sqrfree_yun_exact_below_characteristic_former_yun_loop_history.
 Example C09_sqrfree_yun_hypotheses_satisfiable : prime 5 /\ canon 5 [0; 3; 3; 3; 0; 3; 1] /\ yun_hyp 5 [[0; 1]; [1; 1]; [2; 1]].
 Proof. pose proof sqrfree_yun_example as H. tauto. Qed.
 
-(* CZfactor: "no factor is invented", every input, every characteristic, every MOD, every random stream: each returned factor divides
+(* HISTORY (Model.czfactor over the former Yun loop).  CZfactor: "no factor is invented", every input, every characteristic, every MOD, every random stream: each returned factor divides
    the input; all returned factors, each taken once, times a constant are the product of the square-free parts; times C they divide A
    and give exactly A when sqrfree did not leave by its early exit ("no factor of the radical cofactor is lost") *)
-Theorem C09_czfactor_invents_no_factor : Czfactor_divides_stmt.
+Theorem C09_czfactor_invents_no_factor_former_yun_loop_history : Czfactor_divides_stmt.
 Proof. exact czfactor_divides_thm. Qed.
-Print Assumptions C09_czfactor_invents_no_factor.
-Theorem C09_czfactor_factors_are_the_radical_cofactor : Czfactor_radical_stmt.
+Print Assumptions C09_czfactor_invents_no_factor_former_yun_loop_history.
+Theorem C09_czfactor_factors_are_the_radical_cofactor_former_yun_loop_history : Czfactor_radical_stmt.
 Proof. exact czfactor_radical_thm. Qed.
-Print Assumptions C09_czfactor_factors_are_the_radical_cofactor.
+Print Assumptions C09_czfactor_factors_are_the_radical_cofactor_former_yun_loop_history.
 
 (* ------------------------------------------------------------------------------------------------------------------------------------
    The square-free decomposition and CZfactor AS THEY ARE IN THE TREE NOW (repair ffdc6c6 = frag/C09.fix-6: Model2.sqrfree_rep, czfactor_rep;
@@ -304,3 +328,114 @@ Print Assumptions C09_czfactor_multiplies_back_and_invents_no_factor.
 Example C09_czfactor_hypotheses_satisfiable : prime 3 /\ canon 3 [0; 0; 0; 2; 2] /\
   czfactor_rep 3 [0; 0; 0; 2; 2] 3 [1; 2; 1; 1; 2; 0; 1] = Some ([[1; 1]; [0; 1]], [1; 3], [1; 2; 1; 1; 2; 0; 1]).
 Proof. exact czfactor_rep_correct_example_char3. Qed.
+
+(* ---------------------------------------------------------------- phase 4 ---------------------------------------------------------------- *)
+(* is_prim_root / order are the same functions with the list of prime divisors of q^n-1 as an input, at the model's own list: the
+   correspondence run on the boundary fields supplies the list (computed by python), every theorem about is_prim_root / order transfers *)
+Theorem C09_prim_root_and_order_with_supplied_factor_list : Prim_root_L_stmt.
+Proof. exact prim_root_L_thm. Qed.
+Print Assumptions C09_prim_root_and_order_with_supplied_factor_list.
+(* Rep& factor(Rep& W, const Rep& P, MOD) as repaired by frag/C09.fix-7 (Model3.factor1): every input, every MOD, every stream:
+   what it returns divides P and is canonical *)
+Theorem C09_factor_single_returns_divisor : Factor1_stmt.
+Proof. exact factor1_thm. Qed.
+Print Assumptions C09_factor_single_returns_divisor.
+Example C09_factor_single_example : factor1 2 [1; 0; 1] 2 [] = Some ([1; 1], []).
+Proof. exact factor1_example. Qed.
+
+(* "factorisation returns IRREDUCIBLE, PAIRWISE NON-ASSOCIATE factors": every prime, every size, every stream, GIVEN the finite-field facts that
+   are not proved here, as explicit hypotheses:  ddf_fact p G d = "G is, up to a constant, a product of irreducibles of degree d";
+   ddf_hyp p g MOD = ddf_fact for every gcd(X^(q^dp) - X, P) the distinct-degree loop computes on g (a stream-free trace) and irreducibility of
+   the cofactor it leaves;  sqfree_h / pairwise_cop = the parts of the square-free decomposition are square-free / pairwise coprime (swept only). *)
+(* Euclid's lemma for irreducibles; every non-constant polynomial has an irreducible divisor; a degree-d divisor of a product of
+   irreducibles of degree d is irreducible *)
+Theorem C09_euclid_lemma_for_irreducibles : Euclid_irr_stmt.
+Proof. exact euclid_irr_thm. Qed.
+Print Assumptions C09_euclid_lemma_for_irreducibles.
+Theorem C09_irreducible_divisor_exists : Exists_irr_divisor_stmt.
+Proof. exact exists_irr_divisor_thm. Qed.
+Print Assumptions C09_irreducible_divisor_exists.
+Theorem C09_degree_d_divisor_of_degree_d_irreducibles_is_irreducible : Deg_d_divisor_irreducible_stmt.
+Proof. exact deg_d_divisor_irreducible_thm. Qed.
+Print Assumptions C09_degree_d_divisor_of_degree_d_irreducibles_is_irreducible.
+(* SplitFactor only appends divisors of G of degree exactly d (no hypothesis); given the distinct-degree fact they are irreducible *)
+Theorem C09_split_appends_degree_d_divisors : Split_degs_stmt.
+Proof. exact split_degs_thm. Qed.
+Print Assumptions C09_split_appends_degree_d_divisors.
+Theorem C09_split_factors_irreducible_given_ddf_fact : Split_irreducible_stmt.
+Proof. exact split_irreducible_thm. Qed.
+Print Assumptions C09_split_factors_irreducible_given_ddf_fact.
+Theorem C09_split1_factor_irreducible_given_ddf_fact : Split1_irreducible_stmt.
+Proof. exact split1_irreducible_thm. Qed.
+Print Assumptions C09_split1_factor_irreducible_given_ddf_fact.
+(* DistinctDegreeFactor / CZfactor (current body): every returned factor is irreducible, given ddf_hyp for the polynomial / for each part *)
+Theorem C09_ddf_factors_irreducible_given_ddf_facts : Ddf_irreducible_stmt.
+Proof. exact ddf_irreducible_thm. Qed.
+Print Assumptions C09_ddf_factors_irreducible_given_ddf_facts.
+Theorem C09_czfactor_factors_irreducible_given_ddf_facts : Czfactor_rep_irreducible_stmt.
+Proof. exact czfactor_rep_irreducible_thm. Qed.
+Print Assumptions C09_czfactor_factors_irreducible_given_ddf_facts.
+(* pairwise non-associate: the factors DDF returns for a square-free input (no other hypothesis), and the factors CZfactor returns given that
+   the parts of the square-free decomposition are square-free and pairwise coprime *)
+Theorem C09_ddf_factors_pairwise_non_associate : Ddf_nonassoc_stmt.
+Proof. exact ddf_nonassoc_thm. Qed.
+Print Assumptions C09_ddf_factors_pairwise_non_associate.
+Theorem C09_czfactor_factors_pairwise_non_associate_given_coprime_squarefree_parts : Czfactor_rep_nonassoc_stmt.
+Proof. exact czfactor_rep_nonassoc_thm. Qed.
+Print Assumptions C09_czfactor_factors_pairwise_non_associate_given_coprime_squarefree_parts.
+
+(* LAGRANGE in the unit group of F_p[X]/(F), F irreducible of ANY degree n over ANY prime field: every non-zero residue A satisfies
+   A^(p^n - 1) = 1 (multiplication by A permutes the p^n - 1 non-zero residues; the product of all of them cancels); hence B^(p^n) = B for
+   every B.  This was the hypothesis of C09_prim_root_iff_order_is_group_order / C09_order_is_least_exponent and was swept up to GF(32). *)
+Theorem C09_lagrange_units_of_quotient_field : Lagrange_stmt.
+Proof. exact lagrange_thm. Qed.
+Print Assumptions C09_lagrange_units_of_quotient_field.
+Theorem C09_nonzero_residues_modulo_irreducible_are_units : Irreducible_unit_stmt.
+Proof. exact irreducible_unit_thm. Qed.
+Print Assumptions C09_nonzero_residues_modulo_irreducible_are_units.
+Theorem C09_frobenius_power_fixes_quotient_field : X_pow_stmt.
+Proof. exact X_pow_thm. Qed.
+Print Assumptions C09_frobenius_power_fixes_quotient_field.
+(* "order and primitivity tests agree with the definition", UNCONDITIONAL: every prime p, every irreducible F of every degree, every A not
+   divisible by F: is_prim_root <-> the multiplicative order of A is exactly p^n - 1; `order` returns the least positive exponent, and it
+   divides p^n - 1 *)
+Theorem C09_is_prim_root_iff_order_is_group_order_unconditional : Prim_root_order_uncond_stmt.
+Proof. exact prim_root_order_uncond_thm. Qed.
+Print Assumptions C09_is_prim_root_iff_order_is_group_order_unconditional.
+Theorem C09_order_is_least_exponent_unconditional : Order_uncond_stmt.
+Proof. exact order_uncond_thm. Qed.
+Print Assumptions C09_order_is_least_exponent_unconditional.
+Example C09_order_unconditional_hypotheses_satisfiable : prime 3 /\ canon 3 [0; 1] /\ canon 3 [1; 0; 1] /\ irreducible_def 3 [1; 0; 1].
+Proof. pose proof order_uncond_example as H. tauto. Qed.
+
+(* SOUNDNESS of the implemented irreducibility test, every prime, every degree: is_irreducible P = true -> P is irreducible (definition:
+   P = A B -> A or B constant).  (An irreducible divisor g of degree i <= deg P / 2 divides X^(p^i) - X by Lagrange, hence the gcd of round i.) *)
+Theorem C09_is_irreducible_sound : Is_irreducible_sound_stmt.
+Proof. exact is_irreducible_sound_thm. Qed.
+Print Assumptions C09_is_irreducible_sound.
+(* hence the requests return what the property says, for every stream on which they return, every prime, every requested degree:
+   a monic polynomial of exactly degree n that IS irreducible; for ixe_irreducible moreover X has multiplicative order exactly p^n - 1;
+   give_prim_root / give_random_prim_root / random_prim_root return an element of multiplicative order exactly p^n - 1 *)
+Theorem C09_random_irreducible_returns_irreducible_of_degree_n : Random_irreducible_correct_stmt.
+Proof. exact random_irreducible_correct_thm. Qed.
+Print Assumptions C09_random_irreducible_returns_irreducible_of_degree_n.
+Theorem C09_creux_random_irreducible_returns_irreducible_of_degree_n : Creux_random_irreducible_correct_stmt.
+Proof. exact creux_random_irreducible_correct_thm. Qed.
+Print Assumptions C09_creux_random_irreducible_returns_irreducible_of_degree_n.
+Theorem C09_ixe_irreducible_returns_irreducible_with_X_primitive : Ixe_irreducible_correct_stmt.
+Proof. exact ixe_irreducible_correct_thm. Qed.
+Print Assumptions C09_ixe_irreducible_returns_irreducible_with_X_primitive.
+Theorem C09_prim_root_test_true_means_generator : Prim_root_generates_stmt.
+Proof. exact prim_root_generates_thm. Qed.
+Print Assumptions C09_prim_root_test_true_means_generator.
+Theorem C09_give_prim_root_returns_generator : Give_prim_root_correct_stmt.
+Proof. exact give_prim_root_correct_thm. Qed.
+Print Assumptions C09_give_prim_root_returns_generator.
+Theorem C09_give_random_prim_root_returns_generator : Give_random_prim_root_correct_stmt.
+Proof. exact give_random_prim_root_correct_thm. Qed.
+Print Assumptions C09_give_random_prim_root_returns_generator.
+Theorem C09_random_prim_root_returns_irreducible_and_generator : Random_prim_root_correct_stmt.
+Proof. exact random_prim_root_correct_thm. Qed.
+Print Assumptions C09_random_prim_root_returns_irreducible_and_generator.
+Example C09_random_irreducible_correct_example : prime 2 /\ random_irreducible 2 3 2 [1; 0; 1; 1; 0; 1; 1; 1] = Some ([1; 1; 0; 1], [1; 1]).
+Proof. pose proof random_irreducible_example as H. tauto. Qed.
